@@ -459,24 +459,32 @@ func c14Split(r *RNG, j *Journal, nfiles int) [][]JDir {
 	return res
 }
 
-func c14Text(ds []JDir, incs []string, r *RNG) string {
-	var b strings.Builder
+// c14Text is the text of one file: the directives, the include lines at positions drawn from r, then the raw text (a
+// bad leaf; not a directive list, it stays last). The bytes around them come from a layout drawn from lr (layout.go):
+// how the file begins, what separates two directives, how it ends — also without a final newline after the last
+// directive, an include among them — and whether the includes are moved to the end or the beginning of the file.
+func c14Text(ds []JDir, incs []string, raw string, r, lr *RNG) string {
 	pos := make([]int, len(incs))
 	for i := range incs {
 		pos[i] = r.Intn(len(ds) + 1)
 	}
+	var items []layItem
 	for i := 0; i <= len(ds); i++ {
 		for q, p := range pos {
 			if p == i {
-				fmt.Fprintf(&b, "include \"%s\"\n\n", incs[q])
+				items = append(items, layItem{Text: incs[q], Include: true})
 			}
 		}
 		if i < len(ds) {
-			b.WriteString(ds[i].Text())
-			b.WriteString("\n")
+			items = append(items, layDir(ds[i]))
 		}
 	}
-	return b.String()
+	fixed := len(items)
+	if raw != "" {
+		items = append(items, layItem{Text: strings.TrimSuffix(raw, "\n"), Block: true})
+	}
+	lay := layDraw(lr, len(items))
+	return lay.render(lay.arrange(items, fixed))
 }
 
 // c14Spell respells a relative include path without changing what it names.
@@ -728,11 +736,12 @@ func c14GenGraph(c *Ctx, i int) *c14Case {
 		link(0, 1)
 		link(1, 2)
 	}
+	lr := c.Rng("graph/bytes", i) // the byte layout of the files has a generator of its own
 	for _, nd := range nodes {
 		if nd.rel == "" {
 			continue
 		}
-		tc.Files = append(tc.Files, c14File{Rel: nd.rel, Data: c14Text(nd.ds, nd.incs, r) + nd.raw})
+		tc.Files = append(tc.Files, c14File{Rel: nd.rel, Data: c14Text(nd.ds, nd.incs, nd.raw, r, lr)})
 	}
 	tc.Path = Pick(r, []string{"main.knut", "main.knut", "./main.knut", "sub/../main.knut", "{ABS}/main.knut"})
 	if tc.Path == "sub/../main.knut" {
@@ -1110,6 +1119,7 @@ func runC14(c *Ctx) {
 	if !c.Replay || c.OnlyStr == "fullstdout" {
 		runC14FullStdout(c)
 	}
+	runC14Late(c) // ---- journals that fail late, after a long valid prefix (c14late.go)
 
 	// cases are generated, run and evaluated chunk by chunk, so that the harness itself stays small (the resident
 	// set the kernel reports for a child starts from that of the process that spawned it)
